@@ -5,14 +5,37 @@ facts of rewrite/flow/variables.py and state.py that are necessary for the
 merge clause (guard rails, not a proof of the merge clause).
 """
 import ast
+import copy
 
 from sa.core import rule, AnalysisError
 from sa.pyindex import get_module, dotted, src, calls_in, walk_no_nested
 from rules import _schema as S
+from rules import _util_c12c17c18 as U
 
 CD = "pytype/rewrite/flow/conditions.py"
 VR = "pytype/rewrite/flow/variables.py"
 ST = "pytype/rewrite/flow/state.py"
+
+
+def _vconditions(ctx):
+  """conditions.py with parallel assignments of the constructors split."""
+  return U.virtual(ctx, CD, inline=("_Composite.make", "_Not.make"))
+
+
+def _vvariables(ctx):
+  """variables.py with module-local helpers of with_condition inlined."""
+  return U.virtual(ctx, VR, inline=("Variable.with_condition",), flatten=True)
+
+
+def _vstate(ctx):
+  """state.py as the rules read it: methods BlockState inherits from a base
+  class / mixin of the file count as its own, module-local helpers of
+  with_condition / merge_into are inlined (one merge = one function body
+  again), a dict comprehension filling the new locals is the loop it
+  abbreviates."""
+  return U.virtual(ctx, ST,
+                   inline=("BlockState.with_condition", "BlockState.merge_into"),
+                   loops=("BlockState.with_condition",), flatten=True)
 
 EXPLANATION = (
     "Schema match of the rewrite engine's flow layer.  Paper argument for the "
@@ -241,13 +264,56 @@ def _items_loop(loops, owner, fnname):
   return l, l.target.elts[0].id, l.target.elts[1].id
 
 
+def _pure_temp(s, sym):
+  """`name = <dotted name / constant>` bound once at the top level: a hoisted
+  temporary (`accept = cls._ACCEPT`), resolved through sym wherever it is read."""
+  return (isinstance(s, ast.Assign) and len(s.targets) == 1 and
+          isinstance(s.targets[0], ast.Name) and
+          s.targets[0].id in sym.sequential and
+          sym.counts.get(s.targets[0].id) == 1 and
+          (dotted(s.value) is not None or isinstance(s.value, ast.Constant)))
+
+
+def _make_shape(fn, loop, sym):
+  """(accumulator, its initial value, its initialisation, statements after the
+  loop) of make; before the loop only the accumulator and hoisted temporaries
+  may be bound."""
+  used = {n.id for n in ast.walk(loop) if isinstance(n, ast.Name)}
+  cands, final, seen_loop = [], [], False
+  for s_ in fn.body:
+    if s_ is loop:
+      seen_loop = True
+      continue
+    if isinstance(s_, ast.Expr) and isinstance(s_.value, ast.Constant):
+      continue
+    if seen_loop:
+      final.append(s_)
+      continue
+    if _pure_temp(s_, sym):
+      continue
+    if isinstance(s_, ast.Assign) and len(s_.targets) == 1 and \
+        isinstance(s_.targets[0], ast.Name) and s_.targets[0].id in used:
+      cands.append((s_.targets[0].id, s_.value, s_))
+      continue
+    raise AnalysisError(
+        f"{fn.name}: statement `{src(s_)[:60]}` before the loop is outside "
+        "the combinator schema")
+  if len(cands) != 1:
+    raise AnalysisError(
+        f"{fn.name}: expected one accumulator initialised before the loop, "
+        f"found {[c[0] for c in cands]}")
+  if not final:
+    raise AnalysisError(f"{fn.name}: nothing is returned after the loop")
+  return cands[0][0], cands[0][1], cands[0][2], final
+
+
 # ---------------------------------------------------------------------------
 # R18.1
 
 @rule("R18.1", "C18", floor=19)
 def r18_1(ctx):
   """_Composite.make / _Not.make / class constants / public bindings."""
-  mod = get_module(ctx, CD)
+  mod = _vconditions(ctx)
   # class constants
   for const, cname in (("TRUE", "_True"), ("FALSE", "_False")):
     v = mod.assigns.get(const)
@@ -281,8 +347,7 @@ def r18_1(ctx):
   a = loop.target.id
   if sym.counts.get(a, 0) != 1:
     raise AnalysisError(f"_Composite.make rebinds the loop variable {a}")
-  acc, init, init_stmt = S.accumulator(mod, fn, loop)
-  S.top_level_shape(fn, loop, init_stmt, sym)
+  acc, init, init_stmt, final_stmts = _make_shape(fn, loop, sym)
   actions = S.loop_actions(mod, fn, loop, sym, acc)
   negs = (f"Not({a})", f"_Not.make({a})", f"_Not({a})")
 
@@ -413,11 +478,18 @@ def r18_1(ctx):
   ctx.check(kind == "set", "_Composite.make:accumulator", CD, init_stmt.lineno,
             f"the members are collected in a {kind}; idempotence and the "
             "negation look-up need a set", {"name": acc, "init": src(init)})
-  # final arms
-  paths = S.return_paths(mod, fn, sym, exclude=loop)
-  table = S.decide(paths, S.CARD_WORLDS, lambda n: S.card_atom(acc, n))
+  # final arms: the statements after the loop are run once per size of the
+  # accumulator (every test is decided by the size; hoisted temporaries,
+  # guard clauses / else chains and `(only,) = acc` are all understood)
+  table = {}
+  for n in S.CARD_WORLDS:
+    env = dict(sym.env_before(final_stmts[0])) if final_stmts else {}
+    tr = U.run_world(final_stmts, env, S.card_atom(acc, n), where="_Composite.make")
+    if tr.kind != "return":
+      raise AnalysisError(f"_Composite.make: no return reached with {n} member(s)")
+    table[n] = (tr.stmt, tr.value, tr.tests)
 
-  def final_kind(v):
+  def final_kind(v, n):
     s = src(v)
     if s == f"{cls}(frozenset({acc}))":
       return "connective"
@@ -426,13 +498,16 @@ def r18_1(ctx):
       return "connective over a non-frozenset"
     if s in (f"{acc}.pop()", f"next(iter({acc}))"):
       return "member"
+    if s == f"__only__({acc})":
+      # `(x,) = acc`: the member when there is exactly one, ValueError otherwise
+      return "member" if n == 1 else "failing unpacking of the members"
     if s == IGN:
       return "identity"
     if s == ACC:
       return "absorbing"
     raise AnalysisError(f"_Composite.make: final return value `{s}` not understood")
 
-  got = {n: final_kind(table[n][1]) for n in S.CARD_WORLDS}
+  got = {n: final_kind(table[n][1], n) for n in S.CARD_WORLDS}
   wantk = {0: "identity", 1: "member", 2: "connective", 3: "connective"}
   names = {0: "empty", 1: "single", 2: "many"}
   for n in (0, 1, 2):
@@ -509,7 +584,7 @@ def r18_1(ctx):
 def r18_8(ctx):
   """make unpacks the members of an argument only if it is a term of `cls`."""
   from sa import flow
-  mod = get_module(ctx, CD)
+  mod = _vconditions(ctx)
   fn = mod.func("_Composite.make")
   ps = S.params_of(fn)
   if len(ps) != 1:
@@ -576,7 +651,7 @@ def r18_8(ctx):
 def r18_2(ctx):
   """Conditioning uses And over every binding; merging uses Or."""
   # ---- Variable.with_condition
-  mod = get_module(ctx, VR)
+  mod = _vvariables(ctx)
   fn = mod.func("Variable.with_condition")
   ps = S.params_of(fn)
   if len(ps) != 2:
@@ -661,9 +736,10 @@ def r18_2(ctx):
   if result is not None and src(bkw[0].value) != result:
     problems.append(f"returns bindings={src(bkw[0].value)}, expected {result}")
   if result is None:
-    orig = final[0][0].value
-    okw = [k for k in getattr(orig, "keywords", []) if k.arg == "bindings"]
-    if not okw or not _inside_node(mod, holder, okw[0].value):
+    # the comprehension (directly, or through a once-bound local) is what is
+    # returned as the bindings
+    hsrc = src(sym.resolve(holder, holder))
+    if src(bkw[0].value) not in (f"tuple({hsrc})", hsrc):
       problems.append("the comprehension is not what is returned as bindings")
   ctx.check(not problems, "Variable.with_condition:every-binding", VR, fn.lineno,
             "every binding of the variable must be re-conditioned: "
@@ -682,7 +758,7 @@ def r18_2(ctx):
             {"shortcuts": [[(src(t), pol) for t, pol in p[2]] for p in short]})
 
   # ---- BlockState.with_condition
-  mod = get_module(ctx, ST)
+  mod = _vstate(ctx)
   fn = mod.func("BlockState.with_condition")
   ps = S.params_of(fn)
   if len(ps) != 2:
@@ -822,78 +898,322 @@ def _merge_returns(mod, fn, sym, other):
 
 
 # ---------------------------------------------------------------------------
+# the merge, name by name
+
+class _Merge:
+  """merge_into evaluated per local name.
+
+  Both loops of merge_into touch, in the iteration for `name`, only
+  `<merged locals>[name]` and the membership of `name` in the merged implicit
+  set (checked here: any other store / call is an analysis error), and a dict
+  yields every key once.  So what the merged state holds for a name is the
+  effect of the loop bodies for that name in source order, and it depends only
+  on: is the name a local of self / of other, are the two variables equal,
+  does the name carry self's / other's block condition implicitly.  `run`
+  executes the loop bodies for one such world with U.run_world: tests are
+  decided by the world (and by what has been stored so far), values stay
+  symbolic: `X._locals[name]` (the variable of side X),
+  `<v>.with_condition(<c>)`, and `__fold__(a, b)` for the value->condition
+  map filled from `a.bindings + b.bindings` (the fold loop itself is R18.4's
+  business).  Control-flow shape (elif / guard clause / continue / helper
+  functions inlined by _vstate / loop over items() or over keys) is
+  immaterial."""
+
+  def __init__(self, ctx):
+    self.mod = mod = _vstate(ctx)
+    self.fn = fn = mod.func("BlockState.merge_into")
+    ps = S.params_of(fn)
+    if len(ps) != 2:
+      raise AnalysisError(f"merge_into parameters {ps}")
+    self.me, self.other = ps
+    self.sym = sym = S.Sym(mod, fn)
+    if sym.counts.get(self.me) or sym.counts.get(self.other):
+      raise AnalysisError("merge_into rebinds its parameters")
+    self.table = _merge_returns(mod, fn, sym, self.other)
+    bargs = _bs_args(mod, self.table[False][1])
+    if "_locals" not in bargs or "_locals_with_block_condition" not in bargs:
+      raise AnalysisError("merge_into: merged BlockState without locals / implicit set")
+    if not (isinstance(bargs["_locals"], ast.Name) and
+            isinstance(bargs["_locals_with_block_condition"], ast.Name)):
+      raise AnalysisError("merge_into: merged containers are not plain locals")
+    self.L = bargs["_locals"].id
+    self.W = bargs["_locals_with_block_condition"].id
+    # the loops over the two states' locals, in source order
+    self.loops = []
+    self.key = None
+    for st in fn.body:
+      if isinstance(st, ast.For):
+        self.loops.append(self._loop(st))
+      elif isinstance(st, (ast.While, ast.Try, ast.With, ast.Match)):
+        raise AnalysisError(f"merge_into: top-level `{type(st).__name__}`")
+    owners = [l["owner"] for l in self.loops]
+    if sorted(owners) != sorted([self.me, self.other]):
+      raise AnalysisError(
+          f"merge_into: expected one loop over the locals of each state, found {owners}")
+    # nothing outside the loops fills the merged containers
+    self.marks_elsewhere = 0
+    for st in fn.body:
+      if isinstance(st, ast.For):
+        continue
+      for n in ast.walk(st):
+        if isinstance(n, ast.Call) and src(n.func) == f"{self.W}.add":
+          self.marks_elsewhere += 1
+        elif isinstance(n, ast.Call) and isinstance(n.func, ast.Attribute) and \
+            src(n.func.value) in (self.L, self.W) and n.func.attr in U._MUTATORS:
+          raise AnalysisError(f"merge_into: `{src(n)[:50]}` outside the loops")
+        elif isinstance(n, ast.Subscript) and isinstance(n.ctx, ast.Store) and \
+            src(n.value) in (self.L, self.W):
+          raise AnalysisError(f"merge_into: `{src(n)}` stored outside the loops")
+    for nm, kind in ((self.L, "dict"), (self.W, "set")):
+      inits = [x for x in fn.body if isinstance(x, ast.Assign) and len(x.targets) == 1
+               and src(x.targets[0]) == nm]
+      if len(inits) != 1 or sym.counts.get(nm) != 1:
+        raise AnalysisError(f"merge_into: `{nm}` is not bound exactly once at the top level")
+      # (whether it is fresh is R18.5's question; here only: it starts empty)
+      v = inits[0].value
+      if S.empty_kind(v) != kind:
+        raise AnalysisError(
+            f"merge_into: `{nm}` starts as `{src(v)[:50]}`, not as an empty {kind}: "
+            "the name-by-name reading of the loops does not apply")
+
+  def _loop(self, st):
+    it, tgt = st.iter, st.target
+    owner = key = var = None
+    for x in (self.me, self.other):
+      if src(it) == f"{x}._locals.items()":
+        if not (isinstance(tgt, ast.Tuple) and len(tgt.elts) == 2 and
+                all(isinstance(e, ast.Name) for e in tgt.elts)):
+          raise AnalysisError(f"merge_into: loop target `{src(tgt)}`")
+        owner, key, var = x, tgt.elts[0].id, tgt.elts[1].id
+      elif src(it) in (f"{x}._locals", f"{x}._locals.keys()", f"list({x}._locals)",
+                       f"tuple({x}._locals)", f"sorted({x}._locals)"):
+        if not isinstance(tgt, ast.Name):
+          raise AnalysisError(f"merge_into: loop target `{src(tgt)}`")
+        owner, key = x, tgt.id
+    if owner is None:
+      raise AnalysisError(
+          f"merge_into: top-level loop over `{src(it)}` is not a loop over the "
+          "locals of one of the two states")
+    if st.orelse:
+      raise AnalysisError("merge_into: loop with an else clause")
+    if self.key is None:
+      self.key = key
+    return {"owner": owner, "key": key, "var": var, "node": st}
+
+  # -- terms -------------------------------------------------------------------
+  def var_of(self, x):
+    return f"{x}._locals[{self.key}]"
+
+  def worlds(self):
+    out = []
+    for in_s, in_o in ((True, True), (True, False), (False, True)):
+      for equal in ((True, False) if in_s and in_o else (False,)):
+        for impl_s in ((True, False) if in_s else (False,)):
+          for impl_o in ((True, False) if in_o else (False,)):
+            out.append({"in": {self.me: in_s, self.other: in_o}, "equal": equal,
+                        "impl": {self.me: impl_s, self.other: impl_o}})
+    return out
+
+  @staticmethod
+  def label(w):
+    ins = [x for x, v in w["in"].items() if v]
+    return (f"in={'+'.join(ins)},equal={w['equal']},"
+            f"implicit={'+'.join(x for x, v in w['impl'].items() if v) or '-'}")
+
+  def run(self, w):
+    """(term stored for the name or None, marked?) in world w."""
+    L, W, key = self.L, self.W, self.key
+    state = {"L": None, "marked": False}
+    me, other = self.me, self.other
+
+    def close(e):
+      """Reads of the merged entry denote what has been stored so far."""
+      lk = f"{L}[{key}]"
+      if not any(isinstance(n, ast.Subscript) and src(n) == lk for n in ast.walk(e)):
+        return e
+
+      class T(ast.NodeTransformer):
+        def visit_Subscript(self, n):
+          if src(n) == lk and isinstance(n.ctx, ast.Load):
+            if state["L"] is None:
+              raise AnalysisError(f"merge_into: `{lk}` is read before it is stored")
+            return copy.deepcopy(state["L"])
+          return self.generic_visit(n)
+      return T().visit(copy.deepcopy(e))
+
+    def atom(t):
+      t = close(t)
+      if isinstance(t, ast.Compare) and len(t.ops) == 1:
+        l, r, op = src(t.left), src(t.comparators[0]), t.ops[0]
+        if isinstance(op, (ast.In, ast.NotIn)) and l == key:
+          pos = isinstance(op, ast.In)
+          for x in (me, other):
+            if r in (f"{x}._locals", f"{x}._locals.keys()"):
+              return w["in"][x] == pos
+            if r == f"{x}._locals_with_block_condition":
+              return w["impl"][x] == pos
+          if r == W:
+            return state["marked"] == pos
+          if r in (L, f"{L}.keys()"):
+            return (state["L"] is not None) == pos
+        if isinstance(op, (ast.Eq, ast.NotEq)) and \
+            {l, r} == {self.var_of(me), self.var_of(other)}:
+          return w["equal"] == isinstance(op, ast.Eq)
+      return None
+
+    def effect(s_, env, value):
+      for n in ast.walk(s_) if not isinstance(s_, (ast.If, ast.For)) else []:
+        if isinstance(n, ast.Call) and isinstance(n.func, ast.Attribute) and \
+            n.func.attr in U._MUTATORS and src(n.func.value) in (L, W) and \
+            not (isinstance(s_, ast.Expr) and n is s_.value and n.func.attr == "add"):
+          raise AnalysisError(f"merge_into: `{src(n)[:50]}` in a locals loop")
+      if isinstance(s_, ast.Assign) and len(s_.targets) == 1 and \
+          isinstance(s_.targets[0], ast.Subscript):
+        tg = U.subst_env(s_.targets[0], env)
+        if src(tg) != f"{L}[{key}]":
+          raise AnalysisError(f"merge_into: store into `{src(tg)}` in a locals loop")
+        state["L"] = close(value(s_.value))
+        return True
+      if isinstance(s_, ast.Expr) and isinstance(s_.value, ast.Call):
+        c = U.subst_env(s_.value, env)
+        if src(c.func) == f"{W}.add" and len(c.args) == 1 and src(c.args[0]) == key:
+          state["marked"] = True
+          return True
+        if isinstance(c.func, ast.Attribute) and c.func.attr == "with_condition":
+          return True              # a value object is computed and dropped (R18.7)
+        raise AnalysisError(f"merge_into: call `{src(c)[:60]}` in a locals loop")
+      if isinstance(s_, ast.For):
+        it = close(U.subst_env(s_.iter, env))
+        seqs = _bindings_operands(it)
+        if not seqs:
+          raise AnalysisError(f"merge_into: inner loop over `{src(it)[:60]}`")
+        maps = set()
+        for n in ast.walk(s_):
+          if isinstance(n, (ast.Subscript, ast.Attribute)) and isinstance(n.ctx, ast.Store):
+            root = n
+            while isinstance(root, (ast.Subscript, ast.Attribute)):
+              root = root.value
+            maps.add(src(root))
+          elif isinstance(n, ast.Call) and isinstance(n.func, ast.Attribute) and \
+              n.func.attr in U._MUTATORS:
+            maps.add(src(n.func.value))
+        if len(maps) != 1 or maps & {L, W, me, other}:
+          raise AnalysisError(f"merge_into: the bindings loop writes {sorted(maps)}")
+        env[maps.pop()] = ast.Call(func=ast.Name(id="__fold__", ctx=ast.Load()),
+                                   args=seqs, keywords=[])
+        return True
+      return False
+
+    for lp in self.loops:
+      if not w["in"][lp["owner"]]:
+        continue
+      env = dict(self.sym.env_before(lp["node"]))
+      env[lp["key"]] = ast.Name(id=key, ctx=ast.Load())
+      if lp["var"]:
+        env[lp["var"]] = ast.parse(self.var_of(lp["owner"]), mode="eval").body
+      tr = U.run_world(lp["node"].body, env, atom, effect, where="merge_into")
+      if tr.kind in ("return", "break", "raise"):
+        raise AnalysisError(f"merge_into: `{tr.kind}` inside a locals loop")
+    return state["L"], state["marked"]
+
+  def contributions(self, term, allow_dups=False):
+    """side -> ("raw", None) | ("cond", condition text) | ("other", text) for
+    the variables of the two states the stored term is made of; plus whether
+    the term is a fold."""
+    if term is None:
+      return {}, False
+    folds = [n for n in ast.walk(term) if isinstance(n, ast.Call)
+             and dotted(n.func) == "__fold__"]
+    if len(folds) > 1:
+      raise AnalysisError(f"merge_into: nested bindings maps in `{src(term)[:80]}`")
+    parts = list(folds[0].args) if folds else [term]
+    out = {}
+    for p_ in parts:
+      hit = None
+      for x in (self.me, self.other):
+        v = self.var_of(x)
+        if src(p_) == v:
+          hit = (x, ("raw", None))
+        elif isinstance(p_, ast.Call) and isinstance(p_.func, ast.Attribute) and \
+            p_.func.attr == "with_condition" and src(p_.func.value) == v and \
+            len(p_.args) == 1 and not p_.keywords:
+          hit = (x, ("cond", src(p_.args[0])))
+        elif any(src(n) == v for n in ast.walk(p_)):
+          hit = (x, ("other", src(p_)[:80]))
+      if hit is None:
+        raise AnalysisError(f"merge_into: stored value `{src(p_)[:80]}` not understood")
+      if hit[0] in out and not allow_dups:
+        raise AnalysisError(f"merge_into: `{hit[0]}`'s variable occurs twice in "
+                            f"`{src(term)[:80]}`")
+      out.setdefault(hit[0], hit[1])
+    return out, bool(folds)
+
+
+def _bindings_operands(expr):
+  """Owner expressions of the `X.bindings` operands of a sequence expression."""
+  if isinstance(expr, ast.BinOp) and isinstance(expr.op, ast.Add):
+    return _bindings_operands(expr.left) + _bindings_operands(expr.right)
+  if isinstance(expr, ast.Call) and (dotted(expr.func) or "").endswith("chain") \
+      and not expr.keywords:
+    out = []
+    for a in expr.args:
+      out.extend(_bindings_operands(a))
+    return out
+  if isinstance(expr, ast.Attribute) and expr.attr == "bindings":
+    return [expr.value]
+  if any(isinstance(n, ast.Attribute) and n.attr == "bindings" for n in ast.walk(expr)):
+    raise AnalysisError(f"merge_into: bindings sequence `{src(expr)[:60]}` not understood")
+  return []
+
+
+def _merge_model(ctx):
+  return ctx.memo(("c18-merge-model",), lambda: _Merge(ctx))
+
+
+# ---------------------------------------------------------------------------
 # R18.3
-
-def _merge_loops(mod, fn):
-  ps = S.params_of(fn)
-  me, other = ps
-  loops = [s for s in fn.body if isinstance(s, ast.For)]
-  l1 = _items_loop(loops, me, "merge_into")
-  l2 = _items_loop(loops, other, "merge_into")
-  return me, other, l1, l2
-
 
 @rule("R18.3", "C18", floor=2)
 def r18_3(ctx):
   """An implicitly conditioned variable is made explicit with its own state's condition."""
-  mod = get_module(ctx, ST)
-  fn = mod.func("BlockState.merge_into")
-  sym = S.Sym(mod, fn)
-  me, other, l1, l2 = _merge_loops(mod, fn)
-  sites = [c for c in calls_in(fn) if isinstance(c.func, ast.Attribute)
-           and c.func.attr == "with_condition"]
-  by_side = {me: [], other: []}
-  for c in sites:
-    loop = None
-    for owner, (l, name, var) in ((me, l1), (other, l2)):
-      if _inside_node(mod, c, l):
-        loop = (owner, l, name, var)
-    if loop is None:
-      raise AnalysisError(
-          f"merge_into: `{src(c)}` outside the two loops over the locals")
-    by_side[loop[0]].append((c, loop))
+  m = _merge_model(ctx)
+  me, other = m.me, m.other
+  conds = {me: f"{me}._condition", other: f"{other}._condition"}
   for owner, label in ((me, "self-side"), (other, "other-side")):
-    found = by_side[owner]
-    if not found:
-      ctx.bad(f"merge_into:{label}", ST, fn.lineno,
-              f"the locals of `{owner}` that carry its block condition "
-              "implicitly are never given that condition explicitly: after "
-              "the merge their values are no longer restricted to that block",
-              {"sites": 0})
-      continue
-    problems, facts = [], []
-    for c, (_, loop, name, var) in found:
-      stmt = mod.enclosing_stmt(c)
-      recv = src(c.func.value)
-      arg = src(sym.resolve(c.args[0], c)) if len(c.args) == 1 and \
-          not c.keywords else src(c)
-      g = S.guards(mod, stmt, sym, within=loop)
-      owners = [x for x in (me, other)
-                if any(_member_atom(t, name, f"{x}._locals_with_block_condition") is pol
-                       for t, pol in g)]
-      facts.append({"receiver": recv, "condition": arg,
-                    "guards": [(src(t), p) for t, p in g]})
-      if recv != var:
+    problems, facts, line = [], {}, m.fn.lineno
+    for w in m.worlds():
+      if not w["in"][owner] or (w["equal"] and all(w["in"].values())):
+        continue
+      term, _ = m.run(w)
+      contrib, _ = m.contributions(term)
+      got = contrib.get(owner)
+      facts[m.label(w)] = src(term) if term is not None else None
+      line = getattr(term, "lineno", line) if term is not None else line
+      if got is None:
+        if not all(w["in"].values()):
+          problems.append(f"[{m.label(w)}] the local is dropped from the merged state")
+        continue                     # both sides present: R18.4 (both-sides)
+      kind, c = got
+      if kind == "other" or (kind == "cond" and c not in conds.values()):
         raise AnalysisError(
-            f"merge_into: with_condition applied to `{recv}`, not the loop variable")
-      if arg not in (f"{me}._condition", f"{other}._condition"):
-        raise AnalysisError(f"merge_into: with_condition(`{arg}`)")
-      if arg != f"{owner}._condition":
+            f"merge_into: `{owner}`'s variable is stored as `{c}` [{m.label(w)}]")
+      if w["impl"][owner]:
+        if kind == "raw":
+          problems.append(
+              f"[{m.label(w)}] the variable taken from {owner}._locals carries "
+              f"{owner}'s block condition implicitly and is never given that "
+              "condition explicitly: after the merge its values are no longer "
+              "restricted to that block")
+        elif c != conds[owner]:
+          problems.append(
+              f"[{m.label(w)}] a variable taken from {owner}._locals is "
+              f"conditioned with {c}")
+      elif kind == "cond":
         problems.append(
-            f"a variable taken from {owner}._locals is conditioned with {arg}")
-      if owners != [owner]:
-        problems.append(
-            f"the conditioning of {owner}'s variable is guarded by membership "
-            f"in the implicit set of {owners or 'no state'}")
-      # the conditioned variable must be what is used afterwards
-      tgt = None
-      if isinstance(stmt, ast.Assign) and len(stmt.targets) == 1 and stmt.value is c:
-        tgt = src(stmt.targets[0])
-      if tgt is None or not (tgt == var or tgt.endswith(f"[{name}]")):
-        problems.append("the conditioned variable is not stored "
-                        f"(statement `{src(stmt)[:50]}`)")
-    ctx.check(not problems, f"merge_into:{label}", ST, found[0][0].lineno,
-              "; ".join(problems), {"sites": facts})
+            f"[{m.label(w)}] the conditioning of {owner}'s variable with {c} is "
+            f"not guarded by membership in the implicit set of {owner}")
+    ctx.check(not problems, f"merge_into:{label}", ST, line,
+              "; ".join(problems), {"stored": facts})
 
 
 # ---------------------------------------------------------------------------
@@ -919,11 +1239,11 @@ def _bindings_seqs(expr):
 @rule("R18.4", "C18", floor=5)
 def r18_4(ctx):
   """The value->condition map combines duplicates on both sides."""
-  mod = get_module(ctx, ST)
-  fn = mod.func("BlockState.merge_into")
-  sym = S.Sym(mod, fn)
-  me, other, l1, (loop2, name, var) = _merge_loops(mod, fn)
-  # loops over bindings with a keyed write
+  m = _merge_model(ctx)
+  mod, fn, sym = m.mod, m.fn, m.sym
+  me, other, lname = m.me, m.other, m.L
+  # loops over bindings with a keyed write (wherever the fold was written: in
+  # merge_into itself or in a helper that _vstate has inlined)
   floops = []
   for n in ast.walk(fn):
     if isinstance(n, ast.For) and _bindings_seqs(n.iter):
@@ -981,25 +1301,25 @@ def r18_4(ctx):
   for s in seeds:
     if s[0] is not init.value:
       raise AnalysisError("merge_into: unrelated dict built from bindings")
-  # both sides go through the combining loop
-  folded = []
-  for l in floops:
-    folded.extend(_bindings_seqs(l.iter))
-  need = [f"locals_[{name}].bindings", f"{var}.bindings"]
-  lname = None
-  for n in ast.walk(loop2):
-    if isinstance(n, ast.Assign) and len(n.targets) == 1 and \
-        isinstance(n.targets[0], ast.Subscript) and src(n.targets[0].slice) == name:
-      lname = src(n.targets[0].value)
-  if lname is None:
-    raise AnalysisError("merge_into: merged locals map not identified")
-  need = [f"{lname}[{name}].bindings", f"{var}.bindings"]
-  missing = [x for x in need if x not in folded]
+  # both sides go through the combining loop: whenever the two states hold
+  # different variables for a name, what is stored for it is built from a map
+  # folded over the bindings of both
+  folded, missing = {}, []
+  for w in m.worlds():
+    if not all(w["in"].values()) or w["equal"]:
+      continue
+    term, _ = m.run(w)
+    contrib, is_fold = m.contributions(term, allow_dups=True)
+    folded[m.label(w)] = src(term)[:160] if term is not None else None
+    lacking = [x for x in (me, other) if x not in contrib]
+    if lacking or not is_fold:
+      missing.append((m.label(w), lacking or "no bindings map"))
   ctx.check(not missing, "merge_into:bindings-map:both-sides", ST,
             floops[0].lineno if floops else fn.lineno,
-            f"the duplicate-combining loop folds {folded} but not {missing}: "
-            "the two sides of one merge must be treated alike",
-            {"folded": folded, "expected": need})
+            "when both states define a name with different variables the "
+            "merged variable must be folded from the bindings of both; "
+            f"missing: {missing}: the two sides of one merge must be treated alike",
+            {"stored": folded})
   # the two arms
   if len({id(l) for l, _, _ in writes}) != 1:
     raise AnalysisError("merge_into: writes in several bindings loops")
@@ -1036,10 +1356,13 @@ def r18_4(ctx):
                 f"condition; it gets `{src(v)}`", {"stored": src(v)})
   # rebuilding the variable from the map
   rebuilt = None
-  for n in ast.walk(loop2):
+  for n in ast.walk(fn):
     if isinstance(n, ast.Assign) and len(n.targets) == 1 and \
-        src(n.targets[0]) == f"{lname}[{name}]" and \
+        isinstance(n.targets[0], ast.Subscript) and \
+        src(n.targets[0].value) == lname and \
         any(src(x) == f"{M}.items()" for x in ast.walk(n.value)):
+      if rebuilt is not None:
+        raise AnalysisError("merge_into: the map is rebuilt into a variable twice")
       rebuilt = n
   if rebuilt is None:
     raise AnalysisError("merge_into: the merged variable is not rebuilt from the map")
@@ -1110,23 +1433,34 @@ def _freshness(expr, sym, owners):
 def r18_5(ctx):
   """No BlockState shares a mutable container; store_local marks the name."""
   mod = get_module(ctx, ST)
+  vmod = _vstate(ctx)
   init, ips, roles = _init_roles(mod)
-  n_calls = 0
-  for qual in ("BlockState.with_condition", "BlockState.merge_into"):
-    fn = mod.func(qual)
+  # every construction site of the file, in the function it is written in
+  # (a helper such as `_copy` is judged where it stands: its parameters are
+  # the states whose containers must not be shared)
+  sites = {}
+  for c in calls_in(mod.tree):
+    if (dotted(c.func) or "").split(".")[-1] != "BlockState":
+      continue
+    fn = mod.enclosing_function(c)
+    if fn is None or isinstance(fn, ast.Lambda):
+      raise AnalysisError(f"state.py constructs a BlockState outside a function (line {c.lineno})")
+    sites.setdefault(fn, []).append(c)
+  if not sites:
+    raise AnalysisError("state.py constructs no BlockState")
+  for fn in sorted(sites, key=lambda f: f.lineno):
     sym = S.Sym(mod, fn)
     owners = set(S.params_of(fn))
-    short = qual.split(".")[1]
-    calls = sorted(_bs_calls(fn), key=lambda c: c.lineno)
+    short = fn.name
+    calls = sorted(sites[fn], key=lambda c: c.lineno)
     for i, call in enumerate(calls):
-      n_calls += 1
       bargs = _bs_args(mod, call)
       tag = f"{short}#{i + 1}" if len(calls) > 1 else short
       for field in ("_locals", "_locals_with_block_condition"):
         cons = f"BlockState({tag}):{field}"
         if field not in bargs:
           if field == "_locals":
-            raise AnalysisError(f"{qual}: BlockState(...) without locals")
+            raise AnalysisError(f"{short}: BlockState(...) without locals")
           ctx.ok(cons, ST, call.lineno, {"argument": "default (set(locals_))"})
           continue
         k = _freshness(bargs[field], sym, owners)
@@ -1135,11 +1469,6 @@ def r18_5(ctx):
                   f"{field}: the two states would share one mutable container, "
                   "so store_local on either changes the other",
                   {"argument": src(bargs[field]), "kind": k})
-  others = [c for c in calls_in(mod.tree)
-            if (dotted(c.func) or "").split(".")[-1] == "BlockState"]
-  if len(others) != n_calls:
-    raise AnalysisError(
-        f"state.py constructs BlockState at {len(others)} sites, {n_calls} analysed")
   # __init__: the default implicit set is a fresh set of all names
   lp = [p for p, f in roles.items() if f == "_locals"][0]
   wp = [p for p, f in roles.items() if f == "_locals_with_block_condition"][0]
@@ -1161,7 +1490,9 @@ def r18_5(ctx):
             "without an explicit set every initial local carries the block "
             f"condition: the default must be a fresh set({lp}); found "
             f"`{vals['default']}`", vals)
-  # get_locals
+  # get_locals / store_local: BlockState's own or inherited from a base class
+  # of the file (local MRO)
+  mod = vmod
   fn = mod.func("BlockState.get_locals")
   rets = [n for n in walk_no_nested(fn) if isinstance(n, ast.Return)]
   if len(rets) != 1 or rets[0].value is None:
@@ -1199,75 +1530,36 @@ def r18_5(ctx):
 @rule("R18.6", "C18", floor=3)
 def r18_6(ctx):
   """Only a variable identical in both states takes the merged block condition."""
-  mod = get_module(ctx, ST)
-  fn = mod.func("BlockState.merge_into")
-  sym = S.Sym(mod, fn)
-  me, other, (loop, name, var), l2 = _merge_loops(mod, fn)
-  table = _merge_returns(mod, fn, sym, other)
-  bargs = _bs_args(mod, table[False][1])
-  if "_locals" not in bargs or "_locals_with_block_condition" not in bargs:
-    raise AnalysisError("merge_into: merged BlockState without locals / implicit set")
-  L, W = src(bargs["_locals"]), src(bargs["_locals_with_block_condition"])
-  if not (isinstance(bargs["_locals"], ast.Name) and
-          isinstance(bargs["_locals_with_block_condition"], ast.Name)):
-    raise AnalysisError("merge_into: merged containers are not plain locals")
-  events = []
-  for n in ast.walk(loop):
-    if isinstance(n, ast.Assign) and len(n.targets) == 1 and \
-        src(n.targets[0]) == f"{L}[{name}]":
-      events.append(("store", src(sym.resolve(n.value, n)), n))
-    elif isinstance(n, ast.Expr) and isinstance(n.value, ast.Call) and \
-        src(n.value.func) == f"{W}.add" and len(n.value.args) == 1 and \
-        src(n.value.args[0]) == name:
-      events.append(("mark", name, n))
-    elif isinstance(n, ast.stmt) and not isinstance(n, (ast.If, ast.For, ast.Pass)):
-      raise AnalysisError(f"merge_into: statement `{src(n)[:60]}` in the first loop")
-  marks_elsewhere = [c for c in calls_in(fn) if src(c.func) == f"{W}.add"
-                     and not _inside_node(mod, c, loop)]
-  in_other = f"{other}._locals"
-  eqs = (f"{var} == {other}._locals[{name}]", f"{other}._locals[{name}] == {var}")
-  impl = f"{me}._locals_with_block_condition"
+  m = _merge_model(ctx)
+  me, other = m.me, m.other
+  res = {}
+  for w in m.worlds():
+    term, marked = m.run(w)
+    contrib, is_fold = m.contributions(term)
+    res[m.label(w)] = (w, term, marked, contrib, is_fold)
 
-  def atom_for(w):
-    present, equal, implicit = w
-
-    def atom(t):
-      m = _member_atom(t, name, in_other)
-      if m is not None:
-        return present == m
-      if src(t) in eqs:
-        return equal
-      m = _member_atom(t, name, impl)
-      if m is not None:
-        return implicit == m
-      return None
-    return atom
-
-  worlds = [(p, e, i) for p in (True, False) for e in (True, False)
-            for i in (True, False) if p or not e]
-  ran = {}
-  for w in worlds:
-    ran[w] = [(k, v) for k, v, n in events
-              if S.holds(S.guards(mod, n, sym, within=loop), atom_for(w))]
-  def fmt(ws):
-    return {f"in-other={p},equal={e},implicit={i}": ran[(p, e, i)] for p, e, i in ws}
-  same = [w for w in worlds if w[1]]
-  ok = all(sorted(ran[w]) == [("mark", name), ("store", var)] for w in same)
-  ctx.check(ok, "merge_into:identical-variable", ST, loop.lineno,
+  def fmt(labels):
+    return {l: {"stored": src(res[l][1]) if res[l][1] is not None else None,
+                "marked": res[l][2]} for l in labels}
+  line = m.loops[0]["node"].lineno
+  same = [l for l, r in res.items() if r[0]["equal"]]
+  ok = all(res[l][2] and not res[l][4] and len(res[l][3]) == 1 and
+           list(res[l][3].values())[0] == ("raw", None) for l in same)
+  ctx.check(ok, "merge_into:identical-variable", ST, line,
             "a variable that is equal in both states must be stored unchanged "
             "and marked as carrying the merged block condition (p or q); "
             f"found {fmt(same)}", fmt(same))
-  diff = [w for w in worlds if not w[1]]
-  ok = not any(k == "mark" for w in diff for k, _ in ran[w]) and not marks_elsewhere
-  ctx.check(ok, "merge_into:only-identical-marked", ST, loop.lineno,
+  diff = [l for l, r in res.items() if not r[0]["equal"]]
+  ok = not any(res[l][2] for l in diff) and not m.marks_elsewhere
+  ctx.check(ok, "merge_into:only-identical-marked", ST, line,
             "a variable that differs between the states (or exists in one "
             "only) must not be marked as carrying the merged block condition: "
             "its bindings would be widened from p (or q) to p or q; "
-            f"found {fmt(diff)} and {len(marks_elsewhere)} marks elsewhere",
-            {"marks_elsewhere": len(marks_elsewhere), **fmt(diff)})
-  expl = [w for w in diff if not w[2]]
-  ok = all(ran[w] == [("store", var)] for w in expl)
-  ctx.check(ok, "merge_into:explicit-kept", ST, loop.lineno,
+            f"found {fmt(diff)} and {m.marks_elsewhere} marks elsewhere",
+            {"marks_elsewhere": m.marks_elsewhere, **fmt(diff)})
+  expl = [l for l in diff if res[l][0]["in"][me] and not res[l][0]["impl"][me]]
+  ok = all(res[l][3].get(me) == ("raw", None) for l in expl)
+  ctx.check(ok, "merge_into:explicit-kept", ST, line,
             "a differing variable whose conditions are already explicit must "
             f"be stored unchanged; found {fmt(expl)}", fmt(expl))
 
@@ -1350,8 +1642,152 @@ _VAR_LOOP = (
     "      new_bindings.append(dataclasses.replace(b, condition=new_condition))\n"
     "    return dataclasses.replace(self, bindings=tuple(new_bindings))\n")
 
+# -- refactored shapes (helpers, mixins, hoisted temporaries) + defects --------
+_R1_MAKE = (
+    "    ignore, accept = cls._IGNORE, cls._ACCEPT\n"
+    "    kept = set()\n"
+    "    for cond in args:\n"
+    "      if cond is ignore:\n"
+    "        continue\n"
+    "      if cond is accept or Not(cond) in kept:\n"
+    "        return accept\n"
+    "      kept.add(cond)\n"
+    "    if len(kept) > 1:\n"
+    "      return cls(frozenset(kept))\n"
+    "    if kept:\n"
+    "      (only,) = kept\n"
+    "      return only\n"
+    "    return ignore\n")
+_SELF_ARMS = (
+    "      elif name in self._locals_with_block_condition:\n"
+    "        # This variable implicitly had a block condition, which we now\n"
+    "        # explicitly add to the variable.\n"
+    "        locals_[name] = var.with_condition(self._condition)\n"
+    "      else:\n"
+    "        locals_[name] = var\n"
+    "    for name, var in other._locals.items():\n")
+_OTHER_HEAD = (
+    "    for name, var in other._locals.items():\n"
+    "      if name in locals_with_block_condition:\n"
+    "        continue\n"
+    "      if name in other._locals_with_block_condition:\n"
+    "        # This variable implicitly had a block condition, which we now\n"
+    "        # explicitly add to the variable.\n"
+    "        var = var.with_condition(other._condition)\n")
+_FOLD = (
+    "      bindings = {}\n"
+    "      for b in locals_[name].bindings + var.bindings:\n"
+    "        if b.value in bindings:\n"
+    "          bindings[b.value] = conditions.Or(bindings[b.value], b.condition)\n"
+    "        else:\n"
+    "          bindings[b.value] = b.condition\n"
+    "      locals_[name] = variables.Variable(\n"
+    "          tuple(variables.Binding(k, v) for k, v in bindings.items()))\n")
+_MERGE_DEF = "  def merge_into(self, other: Optional['BlockState[_T]']) -> 'BlockState[_T]':\n"
+_NONE_COPY = (
+    "      return BlockState(\n"
+    "          locals_=dict(self._locals),\n"
+    "          condition=self._condition,\n"
+    "          locals_with_block_condition=set(self._locals_with_block_condition),\n"
+    "      )\n")
+_ACCESSORS = (
+    "  def load_local(self, name: str) -> variables.Variable[_T]:\n"
+    "    return self._locals[name].with_name(name)\n\n"
+    "  def store_local(self, name: str, var: variables.Variable[_T]) -> None:\n"
+    "    self._locals[name] = var\n"
+    "    self._locals_with_block_condition.add(name)\n\n"
+    "  def get_locals(self) -> Mapping[str, variables.Variable[_T]]:\n"
+    "    return immutabledict.immutabledict(self._locals)\n\n")
+
+
+def _explicit_helper(test="name in self._locals_with_block_condition",
+                     cond="self._condition", other_side="other._explicit_local(name)"):
+  """merge_into with the 'make the implicit condition explicit' step extracted
+  into a method used for both sides (second loop over the keys only)."""
+  return [
+      (ST, _MERGE_DEF,
+       "  def _explicit_local(self, name):\n"
+       "    var = self._locals[name]\n"
+       f"    if {test}:\n"
+       f"      return var.with_condition({cond})\n"
+       "    return var\n\n" + _MERGE_DEF),
+      (ST, _SELF_ARMS,
+       "      else:\n        locals_[name] = self._explicit_local(name)\n"
+       "    for name, var in other._locals.items():\n"),
+      (ST, _OTHER_HEAD,
+       "    for name in other._locals:\n"
+       "      if name in locals_with_block_condition:\n"
+       "        continue\n"
+       f"      var = {other_side}\n"),
+  ]
+
+
+def _union_helper(seq="var1.bindings + var2.bindings", conn="Or",
+                  dup="conditions.{conn}(merged[b.value], b.condition)"):
+  """merge_into with the binding-union loop extracted into a module function."""
+  return [
+      (ST, _FOLD, "      locals_[name] = _union_bindings(locals_[name], var)\n"),
+      (ST, "    # pylint: enable=protected-access\n"
+           "    return BlockState(locals_, condition, locals_with_block_condition)\n",
+       "    # pylint: enable=protected-access\n"
+       "    return BlockState(locals_, condition, locals_with_block_condition)\n\n\n"
+       "def _union_bindings(var1, var2):\n"
+       "  merged = {}\n"
+       f"  for b in {seq}:\n"
+       "    if b.value in merged:\n"
+       "      merged[b.value] = " + dup.format(conn=conn) + "\n"
+       "    else:\n"
+       "      merged[b.value] = b.condition\n"
+       "  return variables.Variable(\n"
+       "      tuple(variables.Binding(k, v) for k, v in merged.items()))\n"),
+  ]
+
+
+def _copy_helper(locals_arg="dict(self._locals)"):
+  return [
+      (ST, _NONE_COPY, "      return self._copy()\n"),
+      (ST, _MERGE_DEF,
+       "  def _copy(self):\n"
+       "    return BlockState(\n"
+       f"        locals_={locals_arg},\n"
+       "        condition=self._condition,\n"
+       "        locals_with_block_condition=set(self._locals_with_block_condition),\n"
+       "    )\n\n" + _MERGE_DEF),
+  ]
+
+
+def _mixin(accessors):
+  """The locals accessors moved into a base class of the file."""
+  return [
+      (ST, _ACCESSORS, ""),
+      (ST, "class BlockState(Generic[_T]):\n",
+       "class _LocalsAccessMixin(Generic[_T]):\n"
+       "  \"\"\"Access to the local variables of a block state.\"\"\"\n\n"
+       + accessors + "\nclass BlockState(_LocalsAccessMixin[_T]):\n"),
+  ]
+
+
 VARIANTS = [
     # R18.1
+    {"name": "twin-benign-C18-r1-hoisted-constants", "rule": "R18.1",
+     "patch": "benign/C18-r1/patch.diff", "expect": "silent"},
+    {"name": "twin-make-hoisted-constants-fused-tests-unpacking", "rule": "R18.1", "file": CD,
+     "expect": "silent", "old": _MAKE_LOOP + _MAKE_FINAL, "new": _R1_MAKE},
+    {"name": "hoisted-constants-swapped", "rule": "R18.1", "file": CD, "expect": "fire",
+     "old": _MAKE_LOOP + _MAKE_FINAL,
+     "new": _R1_MAKE.replace("ignore, accept = cls._IGNORE, cls._ACCEPT",
+                             "ignore, accept = cls._ACCEPT, cls._IGNORE")},
+    {"name": "hoisted-shape-empty-returns-absorbing", "rule": "R18.1", "file": CD,
+     "expect": "fire", "old": _MAKE_LOOP + _MAKE_FINAL,
+     "new": _R1_MAKE.replace("    return ignore\n", "    return accept\n")},
+    {"name": "hoisted-shape-complement-returns-identity", "rule": "R18.1", "file": CD,
+     "expect": "fire", "old": _MAKE_LOOP + _MAKE_FINAL,
+     "new": _R1_MAKE.replace(
+         "      if cond is accept or Not(cond) in kept:\n        return accept\n",
+         "      if cond is accept or Not(cond) in kept:\n        return ignore\n")},
+    {"name": "unpacking-taken-for-several-members", "rule": "R18.1", "file": CD,
+     "expect": "fire", "old": _MAKE_LOOP + _MAKE_FINAL,
+     "new": _R1_MAKE.replace("    if len(kept) > 1:\n", "    if len(kept) > 2:\n")},
     {"name": "_And._ACCEPT-is-TRUE", "rule": "R18.1", "file": CD, "expect": "fire",
      "old": "  _ACCEPT: ClassVar[Condition] = FALSE\n", "new": "  _ACCEPT: ClassVar[Condition] = TRUE\n"},
     {"name": "_Or-constants-swapped", "rule": "R18.1", "file": CD, "expect": "fire",
@@ -1508,6 +1944,144 @@ VARIANTS = [
                 "        updated[name] = var.with_condition(combined)"),
                (ST, "        locals_=new_locals,\n        condition=condition,\n",
                 "        locals_=updated,\n        condition=combined,\n")]},
+    {"name": "twin-benign-C18-r2-helper-and-comprehensions", "rule": "R18.2",
+     "patch": "benign/C18-r2/patch.diff", "expect": "silent"},
+    {"name": "twin-binding-step-in-a-helper", "rule": "R18.2", "expect": "silent",
+     "edits": [
+         (VR, _VAR_LOOP,
+          "    new_bindings = tuple(_restrict(b, condition) for b in self.bindings)\n"
+          "    return dataclasses.replace(self, bindings=new_bindings)\n"),
+         (VR, "@_frozen_dataclass\nclass Variable(Generic[_T]):",
+          "def _restrict(binding, condition):\n"
+          "  return dataclasses.replace(\n"
+          "      binding, condition=conditions.And(binding.condition, condition))\n\n\n"
+          "@_frozen_dataclass\nclass Variable(Generic[_T]):")]},
+    {"name": "binding-helper-uses-Or", "rule": "R18.2", "expect": "fire",
+     "edits": [
+         (VR, _VAR_LOOP,
+          "    new_bindings = tuple(_restrict(b, condition) for b in self.bindings)\n"
+          "    return dataclasses.replace(self, bindings=new_bindings)\n"),
+         (VR, "@_frozen_dataclass\nclass Variable(Generic[_T]):",
+          "def _restrict(binding, condition):\n"
+          "  return dataclasses.replace(\n"
+          "      binding, condition=conditions.Or(binding.condition, condition))\n\n\n"
+          "@_frozen_dataclass\nclass Variable(Generic[_T]):")]},
+    {"name": "binding-helper-drops-own-condition", "rule": "R18.2", "expect": "fire",
+     "edits": [
+         (VR, _VAR_LOOP,
+          "    new_bindings = tuple(_restrict(b, condition) for b in self.bindings)\n"
+          "    return dataclasses.replace(self, bindings=new_bindings)\n"),
+         (VR, "@_frozen_dataclass\nclass Variable(Generic[_T]):",
+          "def _restrict(binding, condition):\n"
+          "  return dataclasses.replace(\n"
+          "      binding, condition=conditions.And(condition, condition))\n\n\n"
+          "@_frozen_dataclass\nclass Variable(Generic[_T]):")]},
+    {"name": "binding-helper-applied-to-some-bindings", "rule": "R18.2", "expect": "fire",
+     "edits": [
+         (VR, _VAR_LOOP,
+          "    new_bindings = tuple(_restrict(b, condition) for b in self.bindings[1:])\n"
+          "    return dataclasses.replace(self, bindings=new_bindings)\n"),
+         (VR, "@_frozen_dataclass\nclass Variable(Generic[_T]):",
+          "def _restrict(binding, condition):\n"
+          "  return dataclasses.replace(\n"
+          "      binding, condition=conditions.And(binding.condition, condition))\n\n\n"
+          "@_frozen_dataclass\nclass Variable(Generic[_T]):")]},
+    {"name": "hoisted-comprehension-result-not-returned", "rule": "R18.2", "expect": "fire",
+     "edits": [
+         (VR, _VAR_LOOP,
+          "    new_bindings = tuple(dataclasses.replace(\n"
+          "        b, condition=conditions.And(b.condition, condition)) for b in self.bindings)\n"
+          "    return dataclasses.replace(self, bindings=self.bindings)\n")]},
+    {"name": "twin-BlockState.with_condition-dict-comprehension", "rule": "R18.2", "expect": "silent",
+     "edits": [
+         (ST, "    new_locals = {}\n    for name, var in self._locals.items():\n"
+              "      if name in self._locals_with_block_condition:\n"
+              "        new_locals[name] = var\n      else:\n"
+              "        new_locals[name] = var.with_condition(condition)\n",
+          "    implicit = self._locals_with_block_condition\n"
+          "    new_locals = {\n"
+          "        name: var if name in implicit else var.with_condition(condition)\n"
+          "        for name, var in self._locals.items()\n    }\n")]},
+    {"name": "dict-comprehension-arms-swapped", "rule": "R18.2", "expect": "fire",
+     "edits": [
+         (ST, "    new_locals = {}\n    for name, var in self._locals.items():\n"
+              "      if name in self._locals_with_block_condition:\n"
+              "        new_locals[name] = var\n      else:\n"
+              "        new_locals[name] = var.with_condition(condition)\n",
+          "    implicit = self._locals_with_block_condition\n"
+          "    new_locals = {\n"
+          "        name: var.with_condition(condition) if name in implicit else var\n"
+          "        for name, var in self._locals.items()\n    }\n")]},
+    {"name": "dict-comprehension-filters-locals", "rule": "R18.2", "expect": "error",
+     "edits": [
+         (ST, "    new_locals = {}\n    for name, var in self._locals.items():\n"
+              "      if name in self._locals_with_block_condition:\n"
+              "        new_locals[name] = var\n      else:\n"
+              "        new_locals[name] = var.with_condition(condition)\n",
+          "    new_locals = {\n"
+          "        name: var.with_condition(condition)\n"
+          "        for name, var in self._locals.items()\n"
+          "        if name not in self._locals_with_block_condition\n    }\n")]},
+    # R18.3 .. R18.6 on the split merge_into
+    {"name": "twin-benign-C18-r3-merge-split-into-helpers", "rule": "R18.3",
+     "patch": "benign/C18-r3/patch.diff", "expect": "silent"},
+    {"name": "twin-explicit-step-in-a-method", "rule": "R18.3", "expect": "silent",
+     "edits": _explicit_helper()},
+    {"name": "explicit-helper-guard-inverted", "rule": "R18.3", "expect": "fire",
+     "edits": _explicit_helper(test="name not in self._locals_with_block_condition")},
+    {"name": "explicit-helper-never-conditions", "rule": "R18.3", "expect": "fire",
+     "edits": _explicit_helper(other_side="other._locals[name]")},
+    {"name": "explicit-helper-result-unused-on-other-side", "rule": "R18.3", "expect": "fire",
+     "edits": [(f, o, n.replace("      var = other._explicit_local(name)\n",
+                                "      other._explicit_local(name)\n"
+                                "      var = other._locals[name]\n"))
+               for f, o, n in _explicit_helper()]},
+    {"name": "twin-union-in-a-module-function", "rule": "R18.4", "expect": "silent",
+     "edits": _union_helper()},
+    {"name": "union-helper-folds-one-side", "rule": "R18.4", "expect": "fire",
+     "edits": _union_helper(seq="var2.bindings")},
+    {"name": "union-helper-duplicates-And", "rule": "R18.4", "expect": "fire",
+     "edits": _union_helper(conn="And")},
+    {"name": "union-helper-duplicates-overwrite", "rule": "R18.4", "expect": "fire",
+     "edits": _union_helper(dup="b.condition")},
+    {"name": "union-helper-given-the-same-side-twice", "rule": "R18.4", "expect": "fire",
+     "edits": [(f, o, n.replace("_union_bindings(locals_[name], var)",
+                                "_union_bindings(var, var)"))
+               for f, o, n in _union_helper()]},
+    {"name": "twin-none-copy-in-a-method", "rule": "R18.5", "expect": "silent",
+     "edits": _copy_helper()},
+    {"name": "copy-helper-shares-locals", "rule": "R18.5", "expect": "fire",
+     "edits": _copy_helper(locals_arg="self._locals")},
+    {"name": "copy-helper-changes-condition", "rule": "R18.2", "expect": "fire",
+     "edits": [(f, o, n.replace("        condition=self._condition,\n",
+                                "        condition=conditions.TRUE,\n"))
+               for f, o, n in _copy_helper()]},
+    {"name": "explicit-helper-shape-identical-not-marked", "rule": "R18.6", "expect": "fire",
+     "edits": _explicit_helper() + [
+         (ST, "        locals_[name] = var\n        locals_with_block_condition.add(name)\n",
+          "        locals_[name] = var\n")]},
+    {"name": "explicit-helper-shape-marks-every-name", "rule": "R18.6", "expect": "fire",
+     "edits": [(f, o, n.replace(
+         "      else:\n        locals_[name] = self._explicit_local(name)\n",
+         "      else:\n        locals_[name] = self._explicit_local(name)\n"
+         "        locals_with_block_condition.add(name)\n"))
+               for f, o, n in _explicit_helper()]},
+    # methods moved into a mixin of the file
+    {"name": "twin-benign-C18-r4-locals-mixin", "rule": "R18.5",
+     "patch": "benign/C18-r4/patch.diff", "expect": "silent"},
+    {"name": "twin-accessors-in-a-mixin", "rule": "R18.5", "expect": "silent",
+     "edits": _mixin(_ACCESSORS)},
+    {"name": "mixin-get_locals-returns-own-dict", "rule": "R18.5", "expect": "fire",
+     "edits": _mixin(_ACCESSORS.replace(
+         "    return immutabledict.immutabledict(self._locals)\n", "    return self._locals\n"))},
+    {"name": "mixin-store_local-does-not-mark", "rule": "R18.5", "expect": "fire",
+     "edits": _mixin(_ACCESSORS.replace(
+         "    self._locals_with_block_condition.add(name)\n", ""))},
+    {"name": "mixin-overridden-by-sharing-accessor", "rule": "R18.5", "expect": "fire",
+     "edits": _mixin(_ACCESSORS) + [
+         (ST, "  def with_condition(self, condition: conditions.Condition) -> 'BlockState[_T]':",
+          "  def get_locals(self):\n    return self._locals\n\n"
+          "  def with_condition(self, condition: conditions.Condition) -> 'BlockState[_T]':")]},
     # R18.3
     {"name": "merge-self-side-gets-other-condition", "rule": "R18.3", "file": ST, "expect": "fire",
      "old": "        locals_[name] = var.with_condition(self._condition)",
